@@ -1129,6 +1129,10 @@ func checkCtx(name string, s godi.Scope, o *Op, parentMarker string, parentName 
 		want = "m-" + name
 	} else if o.Ctx == "bg" {
 		want = ""
+	} else if o.Ctx == "der" {
+		if _, isScope := target(o.Sc).(godi.Scope); isScope {
+			want = "m-" + name
+		}
 	}
 	got, _ := ctx.Value(ctxMarkerKey{}).(string)
 	ok = ok && got == want
@@ -1239,7 +1243,9 @@ func doOp(o *Op) {
 			case "der":
 				// derived from the parent scope's own context, with a cancel function of its own
 				if ps, ok := tg.(godi.Scope); ok && ps.Context() != nil {
-					ctx, cancel = context.WithCancel(ps.Context())
+					// ... and OVERRIDING the marker value the parent scope's context carries: the value of the context
+					// that was passed is the one the new scope's context answers with
+					ctx, cancel = context.WithCancel(context.WithValue(ps.Context(), ctxMarkerKey{}, "m-"+o.Name))
 				} else {
 					ctx, cancel = context.WithCancel(context.Background())
 				}
